@@ -84,6 +84,9 @@ let blackbox (s : sc) =
   let subs = Hashtbl.create 64 and rets = Hashtbl.create 64 in
   let expect = Hashtbl.create 64 and cancels = Hashtbl.create 64 in
   let icb = Hashtbl.create 16 and ica = Hashtbl.create 16 and icspec = Hashtbl.create 16 in
+  (* the call's own time bound in ms (its time-out parameter / the deadline of its own context; max_int: none) *)
+  let own_to = Hashtbl.create 64 in
+  let collapse_sc = (try ignore (Str.search_forward (Str.regexp_string "\"collapse\":true") s.spec 0); true with Not_found -> false) in
   let fails = ref 0 in
   let oracle name detail = incr fails; Printf.printf "ORACLE\t%s\t%s\t%s\n" s.id name detail in
   let badids = ref 0 in
@@ -95,6 +98,13 @@ let blackbox (s : sc) =
     | "SUB" :: c :: rest ->
         Hashtbl.replace subs (ios c) true;
         (match rest with
+         | _ :: _ :: _ :: tmo :: mode :: _ ->
+             let a = has_prefix "async" mode and lg = (try ignore (Str.search_forward (Str.regexp_string "-long") mode 0); true with Not_found -> false) in
+             let base = if lg then (if a then max_int else 30000) else ios tmo in
+             let dl = (match List.find_opt (fun f -> has_prefix "dl=" f) rest with Some f when ios (after_eq f) > 0 -> ios (after_eq f) | _ -> max_int) in
+             Hashtbl.replace own_to (ios c) (min base dl)
+         | _ -> ());
+        (match rest with
          | _ :: p :: _ :: _ :: mode :: _ ->
              let (g, ic) = gspec_of_sub rest (max 0 (ios p)) in
              if ic then Hashtbl.replace icspec (ios c) (g, has_prefix "async" mode)
@@ -104,8 +114,18 @@ let blackbox (s : sc) =
         (match rest with
          | _ :: _ :: _ :: _ :: _ :: _ :: exp :: canc :: _ -> Hashtbl.replace expect (ios c) (ios exp); if canc = "1" then Hashtbl.replace cancels (ios c) true
          | _ -> Hashtbl.replace cancels (ios c) true)
-    | "RET" :: c :: kind :: p :: late :: _ ->
+    | "RET" :: c :: kind :: p :: late :: rest ->
         let c = ios c in
+        (* a time-out error is the call's OWN: it cannot come before the call's own time-out / context deadline has passed
+           (checked where no other deadline exists in the stack: the collapse wrapper -- the shared request runs with
+           context.Background() and a 30 s time-out) *)
+        (match rest with
+         | el :: _ when collapse_sc && kind = "timeout" ->
+             let own = (try Hashtbl.find own_to c with Not_found -> 0) in
+             if own < max_int && 2 * ios el < own || own = max_int then
+               oracle "own_error" (Printf.sprintf "caller %d returned a deadline / time-out error after %s ms although its own time-out (%s) had not passed: another call's deadline became its result" c el
+                                     (if own = max_int then "none" else string_of_int own ^ " ms"))
+         | _ -> ());
         let prev = try Hashtbl.find rets c with Not_found -> [] in
         Hashtbl.replace rets c ((kind, ios p, late = "1") :: prev)
     | "HANG" :: c :: _ -> Hashtbl.replace cancels (ios c) true; oracle "exactly_once" ("caller " ^ c ^ " did not return (watchdog)")
